@@ -13,6 +13,7 @@ CONSTANTS Streams,    \* set of streams; a stream is a sequence of message kinds
           ReadMax,    \* largest read the connection performs
           MaxReads,   \* bound on the number of reads (cuts + 1); 0 = unbounded
           Cuts,       \* set of stream offsets at which a read may end (besides the end); {} = any
+          Fails,      \* sets of stream positions whose message handler fails (raises) when the message is delivered
           D
 
 VARIABLES stream, fed, delivered, nreads, last, hist
@@ -30,9 +31,12 @@ Init == /\ stream = <<>> /\ fed = 0 /\ delivered = 0 /\ nreads = 0
 Log(a, args, exp) == /\ last' = [a |-> a, args |-> args, exp |-> exp]
                      /\ hist' = Append(hist, [a |-> a, args |-> args, exp |-> exp])
 
-Choose(s) == /\ stream = <<>> /\ s \in Streams /\ stream' = s
-             /\ UNCHANGED <<fed, delivered, nreads>>
-             /\ Log("Stream", [kinds |-> s], [x |-> 0])
+\* A consumer whose handler fails on some message is the consumer's business: the message counts as delivered
+\* and framing of everything after it is what it would have been - so F appears in no other action.
+Choose(s, F) == /\ stream = <<>> /\ s \in Streams /\ stream' = s
+                /\ F \in Fails /\ F \subseteq 1..Len(s)
+                /\ UNCHANGED <<fed, delivered, nreads>>
+                /\ Log("Stream", [kinds |-> s, fail |-> F], [x |-> 0])
 
 Read(k) ==
   /\ stream # <<>> /\ k >= 1 /\ k <= ReadMax /\ fed + k <= Total(stream)
@@ -49,7 +53,8 @@ Read(k) ==
 Ks == IF Cuts = {} THEN 1..ReadMax
       ELSE {c - fed : c \in {x \in Cuts \cup {Total(stream)} : x > fed}} \cup {ReadMax}
 ReadAny == \E k \in Ks : Read(k)
-Next == (\E s \in Streams : Choose(s)) \/ ReadAny
+ChooseAny == \E s \in Streams, F \in Fails : Choose(s, F)
+Next == ChooseAny \/ ReadAny
 Spec == Init /\ [][Next]_vars
 
 \* ---- the property
